@@ -174,9 +174,11 @@ func runC03(tier string, seed uint64) {
 			}
 			if ghost && len(keys) > 0 {
 				// a delete-marked key that must never be listed
-				g := keys[0] + "g"
-				s.Put(b, g, []byte("ghost"), nil)
-				s.Delete(b, g)
+				// (also ones that lie behind a delimiter: they must not surface as a common prefix)
+				for _, g := range []string{keys[0] + "g", "g/h", "gbh", keys[0] + "/g"} {
+					s.Put(b, g, []byte("ghost"), nil)
+					s.Delete(b, g)
+				}
 			}
 			var prefixes []string
 			if isSmall(keys) {
@@ -215,7 +217,9 @@ func runC03(tier string, seed uint64) {
 						s.DeleteVersion(b, k, v)
 					}
 					if len(keys) > 0 {
-						s.DeleteVersion(b, keys[0]+"g", v)
+						for _, g := range []string{keys[0] + "g", "g/h", "gbh", keys[0] + "/g"} {
+							s.DeleteVersion(b, g, v)
+						}
 					}
 				}
 				s.vids = nil
@@ -226,7 +230,7 @@ func runC03(tier string, seed uint64) {
 		s.end()
 	}
 	sample("key sets: all subsets of size <= 2 of the 18 keys over {a,b,/} (len <= 3, not starting/ending with '/'), seeded subsets of size 3..6, and 5 'rich' sets (a-x a/x a.x; UTF-8; nested dirs)")
-	sample("for each set: all 27 prefixes over {a,b,/} of length <= 3 not starting with '/', delimiter none and '/' (and 'b' on mem/bolt), V1 or V2; mem runs versioned with a delete-marked ghost key")
+	sample("for each set: all 27 prefixes over {a,b,/} of length <= 3 not starting with '/', delimiter none and '/' (and 'b' on mem/bolt), V1 or V2; mem runs versioned with delete-marked ghost keys (next to a live key, below it, and behind each delimiter)")
 }
 
 // ---------------------------------------------------------------- C04
